@@ -8,7 +8,7 @@ def run(tier):
                 summarise=["deps.dev/util/semver.compare"])
     pj = []
     q = tier == "quick"
-    for tn in ([1, 3, 4] if q else range(7)):
+    for tn in ([1, 3, 4, 5, 6] if q else range(7)):
         pj.append(dict(base, harness="VerifC16CanonName", params={"tn": tn}))
         for te in ([0, 2, 4] if q else range(6)):
             for ts in ([0, 1, 3] if q else range(9)):
@@ -26,6 +26,20 @@ def run(tier):
     lits = [1, 3, 4, 6] if q else range(9)
     for v, o, l in itertools.product(vars_, ops, lits):
         mj.append(dict(base, harness="VerifC16Marker", params={"shape": 0, "x0": 0, "v0": v, "o0": o, "l0": l, "w": (v + o) % 3, "q": l % 2}))
+    # leading-v version literals against the version variables
+    for v, o, l in itertools.product([0, 1, 2], range(7), [9, 10, 11]):
+        if q and (v + o + l) % 2:
+            continue
+        mj.append(dict(base, harness="VerifC16Marker", params={"shape": 0, "x0": 0, "v0": v, "o0": o, "l0": l, "w": 1, "q": l % 2}))
+    # literal on the left: ordering of versions, equality/containment of strings, extra on the right
+    for v, o, l in itertools.product([0, 1, 2], range(6), [1, 2, 6, 9]):
+        if q and (v + o + l) % 3:
+            continue
+        mj.append(dict(base, harness="VerifC16Marker", params={"shape": 0, "x0": 0, "rev0": 1, "v0": v, "o0": o, "l0": l, "w": 1, "q": 0}))
+    for v, o, l in itertools.product([3, 4, 7], [2, 3, 7, 8], [3, 4, 5, 8]):
+        mj.append(dict(base, harness="VerifC16Marker", params={"shape": 0, "x0": 0, "rev0": 1, "v0": v, "o0": o, "l0": l, "w": 1, "q": 0}))
+    for shape in (0, 1, 2):
+        mj.append(dict(base, harness="VerifC16Marker", params={"shape": shape, "x0": 2, "x1": 0, "v0": 0, "o0": 0, "l0": 0, "v1": 3, "o1": 3, "l1": 4, "w": 1, "q": 0}))
     # boolean structure and extras
     for shape in (1, 2, 3, 4, 5):
         for x0, x1 in ((0, 0), (1, 0), (0, 1)):
@@ -34,9 +48,12 @@ def run(tier):
                 for k, xx in enumerate((x0, x1, 0)):
                     p.update({"x%d" % k: xx, "v%d" % k: (v + k) % 9, "o%d" % k: (o + k) % 6, "l%d" % k: (l + 2 * k) % 8})
                 mj.append(dict(base, harness="VerifC16Marker", params=p))
+    for j in mj:
+        for k in range(3):
+            j["params"].setdefault("rev%d" % k, 0)
     return run_property("C16", tier, [Group("pypi", pj), Group("rpypi", mj)],
                         required_covers=["requirement parsed", "valid name canonicalised", "canon computed", "marker parsed", "marker true", "marker false",
                                          "comparison packaging rejects"],
                         assumptions=["requirement strings are built from the PEP 508 pieces in harness/pypi/c16.go (the expected fields are known by construction)",
-                                     "marker reference: version comparison for python_version / python_full_version / implementation_version against release literals, Python string comparison otherwise; ~= and === on non-versions and URL requirements are outside"],
+                                     "marker reference: version comparison for python_version / python_full_version / implementation_version against release literals (a leading v admitted), Python string comparison otherwise; the literal may stand on the left for version ordering, string equality/containment and extra; ~= and === on non-versions and URL requirements are outside"],
                         bounds={"name_len": "<=6", "marker_atoms": 3})
